@@ -185,6 +185,46 @@ func enginePlans(thorough bool) []enginePlan {
 			add(log, d+1, func(c *updsim.WorldCfg) { c.Faults = true; c.Server.Slice, c.Server.ChanSlice = sl, sl; c.Untracked = []int{2} })
 		}
 	}
+	// own operations: the client learns a position from the messages.affected* result of its own RPC
+	// (Manager.HandleAffected -> affectedQueue arm), in any order with the pushed updates around it
+	affs := [][]string{{"aff", "msg"}, {"msg", "aff"}, {"msg", "aff", "msg"}, {"aff", "aff", "msg"}, {"del2", "aff", "del"}, {"cmsg", "caff"}, {"caff", "cmsg"}, {"cmsg", "caff", "cmsg"}}
+	if thorough {
+		affs = append(affs, seqs([]string{"msg", "aff"}, 4, 4)...)
+		affs = append(affs, []string{"cmsg", "caff", "caff", "cdel"}, []string{"msg", "aff", "cmsg", "caff"})
+	}
+	for _, log := range affs {
+		for _, sl := range []int{0, 1} {
+			sl := sl
+			add(log, d, func(c *updsim.WorldCfg) { c.Server.Slice, c.Server.ChanSlice = sl, sl })
+		}
+		if strings.HasPrefix(log[0], "c") {
+			add(log, dl, func(c *updsim.WorldCfg) { c.Lazy = true })
+		}
+	}
+	// short envelope forms of a new message (converted by handleUpdates) and messages whose sender's
+	// access hash is unknown (envelope dropped, immediate getDifference) or learned from a difference
+	for _, log := range [][]string{{"msg"}, {"msg", "msg"}, {"msg", "del", "msg"}, {"msg", "msg", "del"}} {
+		for _, env := range []string{"shortchat", "shortuser", "shortsent"} {
+			env := env
+			add(log, d, func(c *updsim.WorldCfg) { c.Envelope = env })
+		}
+	}
+	for _, log := range [][]string{{"msg"}, {"msg", "edit"}, {"msg", "del", "msg"}, {"del", "msg", "enc"}} {
+		for _, snd := range []string{"unknown", "learned"} {
+			snd := snd
+			add(log, d, func(c *updsim.WorldCfg) { c.Server.Sender = snd })
+		}
+	}
+	add([]string{"msg", "del", "msg"}, d-1, func(c *updsim.WorldCfg) { c.Server.Sender = "learned"; c.Containers = 2 })
+	// channels that are in the storage at the start but whose access hash is learned only from the
+	// chats vector of their first pushed envelope (handleChannel creates the state from the stored position)
+	for _, log := range [][]string{{"cmsg@2"}, {"cmsg@2", "cdel@2"}, {"cmsg@2", "cmsg@2", "cdel@2"}, {"cmsg", "cmsg@2", "cmsg@2"}} {
+		for _, sl := range []int{0, 1} {
+			sl := sl
+			add(log, d, func(c *updsim.WorldCfg) { c.LateHash = []int{2}; c.Server.ChanSlice = sl })
+		}
+	}
+	add([]string{"cmsg@2", "cdel@2", "cmsg@2"}, d-1, func(c *updsim.WorldCfg) { c.LateHash = []int{2}; c.Containers = 2 })
 	// channel sequences with explicit interleaving of the worker's queue and the main loop
 	chans := [][]string{{"cmsg"}, {"cmsg", "cmsg"}, {"cmsg", "cdel"}, {"cdel", "cmsg"}, {"msg", "cmsg"}, {"cmsg", "msg", "cmsg"}, {"cmsg", "cmsg@2"}}
 	if thorough {
@@ -204,7 +244,7 @@ func enginePlans(thorough bool) []enginePlan {
 func runEngine(c *kit.Ctx, fam *kit.Fam[engW]) {
 	c.Rule("Part 2, family engine: BFS over the real internalState + channelState (no goroutines: every select arm of the two Run loops is a step the harness calls) against a fake server holding a reference log. " +
 		"Events: push of any visible log entry (plain, seq-numbered), grow, main timer => getDifference, channel timer => getChannelDifference, updatesTooLong, updatePtsChanged, updateChannelTooLong with/without pts, and in the 'lazy' worlds one step of the main loop's internal queue / one step of a channel worker's queue as separate events " +
-		"(= every interleaving of the per-channel queues with the main loop at loop-iteration granularity). Further worlds: zero-count updates in the log (updateWebPage / updateReadChannelInbox / updateChannelWebPage with pts_count 0; exempt from (i)/(ii) as the statement says 'positive count'), envelopes carrying 2-3 log entries in every order ('pushc'), channels unknown to the client at start, and a fault dimension: the event 'fail j' makes the j-th following StateStorage write (any of SetPts/SetQts/SetChannelPts/SetDate/SetSeq/SetDateSeq/SetState, j=1..3, once per history) return an error and store nothing; the unchanged code logs such errors and continues, the oracle is the same under faults (errors returned to the Run loops are only logged there, so they are not judged). Oracle on every Handler.Handle call and every event: statement (i)-(iii) with 'covered' = position <= a state answered by a fetched difference.")
+		"(= every interleaving of the per-channel queues with the main loop at loop-iteration granularity). Further worlds: zero-count updates in the log (updateWebPage / updateReadChannelInbox / updateChannelWebPage with pts_count 0; exempt from (i)/(ii) as the statement says 'positive count'), envelopes carrying 2-3 log entries in every order ('pushc'), channels unknown to the client at start, and a fault dimension: the event 'fail j' makes the j-th following StateStorage write (any of SetPts/SetQts/SetChannelPts/SetDate/SetSeq/SetDateSeq/SetState, j=1..3, once per history) return an error and store nothing; the unchanged code logs such errors and continues, the oracle is the same under faults (errors returned to the Run loops are only logged there, so they are not judged). Oracle on every Handler.Handle call and every event: statement (i)-(iii) with 'covered' = position inside (requested position, answered state] of a fetched difference. Audit additions: (a) log kinds aff / caff = own operations whose position the client learns from a messages.affected* result: pushing such an entry calls the affectedQueue arm (Manager.HandleAffected -> internalState.handleAffected / channelState.handleAffected) in any order with the pushes around it; nothing of it is owed to the handler, a position it covers counts as settled once the result was handed over, and a tracked position may move to its end; a difference from an earlier position returns it as updateReadHistoryOutbox / updateDeleteChannelMessages in other_updates. (b) envelope forms shortchat / shortuser / shortsent: a new message pushed as updateShortChatMessage (own message, peers known: conversion path), updateShortMessage (sender access hash unknown: envelope dropped, immediate getDifference) or updateShortSentMessage (delivered as updateNewMessage with messageEmpty). (c) Server.Sender unknown / learned: msg and edit carry from_id of a user whose access hash is unknown (every pushed envelope with such a message is dropped and answered by getDifference) or is learned from the users vector of the first difference. (d) LateHash worlds: a channel that is in the storage at position 0 but whose access hash is unknown at start-up (Manager.loadChannels skips it); its envelopes carry the full channel in chats, so the first push makes handleChannel create the worker from the STORED position (GetChannelPts found branch); every entry after the stored position is owed once a push was seen. (e) \"covered by a fetched difference\" is kept as position ranges: an answer to a request from a that sets state b covers (a, b], not the positions up to a.")
 	c.Assume("engine part: select arms of internalState.Run / channelState.Run transcribed 1:1 in the accessor; a channel difference is only started while the worker's queue is empty (otherwise channelState.sendOut's select may drop queued updates at random - left to the scheduler engine), real goroutines/timers are not run")
 	ps := enginePlans(c.Thorough())
 	var mu sync.Mutex
